@@ -192,7 +192,7 @@ func viewConfig(cfg int) ([]sdkmetric.View, map[string][]streamSpec, string) {
 		name = "no views"
 	case 1:
 		name = "allow-keys filter on every instrument"
-		views = append(views, sdkmetric.NewView(sdkmetric.Instrument{Name: "*"}, sdkmetric.Stream{AttributeFilter: attribute.NewAllowKeysFilter("a")}))
+		views = append(views, sdkmetric.NewView(sdkmetric.Instrument{Name: "*"}, sdkmetric.Stream{AttributeFilter: allowKeys("a")}))
 		for _, i := range instruments {
 			s := def(i)
 			s.filter = "allow-a"
@@ -200,7 +200,7 @@ func viewConfig(cfg int) ([]sdkmetric.View, map[string][]streamSpec, string) {
 		}
 	case 2:
 		name = "deny-keys filter on every instrument"
-		views = append(views, sdkmetric.NewView(sdkmetric.Instrument{Name: "*"}, sdkmetric.Stream{AttributeFilter: attribute.NewDenyKeysFilter("a")}))
+		views = append(views, sdkmetric.NewView(sdkmetric.Instrument{Name: "*"}, sdkmetric.Stream{AttributeFilter: denyKeys("a")}))
 		for _, i := range instruments {
 			s := def(i)
 			s.filter = "deny-a"
@@ -228,8 +228,8 @@ func viewConfig(cfg int) ([]sdkmetric.View, map[string][]streamSpec, string) {
 	case 5:
 		name = "two views, different streams"
 		views = append(views, sdkmetric.NewView(sdkmetric.Instrument{Name: "ci"}, sdkmetric.Stream{Name: "ci_all"}),
-			sdkmetric.NewView(sdkmetric.Instrument{Name: "ci"}, sdkmetric.Stream{Name: "ci_by_a", AttributeFilter: attribute.NewAllowKeysFilter("a")}),
-			sdkmetric.NewView(sdkmetric.Instrument{Name: "hf"}, sdkmetric.Stream{Name: "hf_by_b", AttributeFilter: attribute.NewDenyKeysFilter("a")}),
+			sdkmetric.NewView(sdkmetric.Instrument{Name: "ci"}, sdkmetric.Stream{Name: "ci_by_a", AttributeFilter: allowKeys("a")}),
+			sdkmetric.NewView(sdkmetric.Instrument{Name: "hf"}, sdkmetric.Stream{Name: "hf_by_b", AttributeFilter: denyKeys("a")}),
 			sdkmetric.NewView(sdkmetric.Instrument{Name: "hf"}, sdkmetric.Stream{Name: "hf_sum", Aggregation: sdkmetric.AggregationSum{}}))
 		specs["ci"] = []streamSpec{{out: "ci_all", agg: "sum"}, {out: "ci_by_a", filter: "allow-a", agg: "sum"}}
 		specs["hf"] = []streamSpec{{out: "hf_by_b", filter: "deny-a", agg: "hist"}, {out: "hf_sum", agg: "sum"}}
@@ -237,13 +237,13 @@ func viewConfig(cfg int) ([]sdkmetric.View, map[string][]streamSpec, string) {
 		name = "two views, same stream"
 		views = append(views, sdkmetric.NewView(sdkmetric.Instrument{Name: "ci"}, sdkmetric.Stream{Name: "ci_same"}),
 			sdkmetric.NewView(sdkmetric.Instrument{Name: "ci"}, sdkmetric.Stream{Name: "ci_same"}),
-			sdkmetric.NewView(sdkmetric.Instrument{Name: "c?"}, sdkmetric.Stream{AttributeFilter: attribute.NewAllowKeysFilter("a", "b")}))
+			sdkmetric.NewView(sdkmetric.Instrument{Name: "c?"}, sdkmetric.Stream{AttributeFilter: allowKeys("a", "b")}))
 		specs["ci"] = []streamSpec{{out: "ci_same", agg: "sum"}, {out: "ci", filter: "allow-ab", agg: "sum"}}
 		specs["cf"] = []streamSpec{{out: "cf", filter: "allow-ab", agg: "sum"}}
 	case 9:
 		name = "three views, first and third on the same stream; a drop view before a keeping view"
 		views = append(views, sdkmetric.NewView(sdkmetric.Instrument{Name: "ci"}, sdkmetric.Stream{Name: "ci_same"}),
-			sdkmetric.NewView(sdkmetric.Instrument{Name: "ci"}, sdkmetric.Stream{Name: "ci_by_a", AttributeFilter: attribute.NewAllowKeysFilter("a")}),
+			sdkmetric.NewView(sdkmetric.Instrument{Name: "ci"}, sdkmetric.Stream{Name: "ci_by_a", AttributeFilter: allowKeys("a")}),
 			sdkmetric.NewView(sdkmetric.Instrument{Name: "ci", Kind: sdkmetric.InstrumentKindCounter}, sdkmetric.Stream{Name: "ci_same"}),
 			sdkmetric.NewView(sdkmetric.Instrument{Name: "cf"}, sdkmetric.Stream{Aggregation: sdkmetric.AggregationDrop{}}),
 			sdkmetric.NewView(sdkmetric.Instrument{Name: "cf", Kind: sdkmetric.InstrumentKindCounter}, sdkmetric.Stream{Name: "cf_kept"}),
@@ -266,9 +266,9 @@ func viewConfig(cfg int) ([]sdkmetric.View, map[string][]streamSpec, string) {
 		// a view named "*" still has to honour its other criteria
 		name = "wildcard name combined with kind / unit / scope criteria"
 		views = append(views, sdkmetric.NewView(sdkmetric.Instrument{Name: "*", Kind: sdkmetric.InstrumentKindHistogram}, sdkmetric.Stream{Aggregation: sdkmetric.AggregationDrop{}}),
-			sdkmetric.NewView(sdkmetric.Instrument{Name: "*", Unit: "no-such-unit"}, sdkmetric.Stream{AttributeFilter: attribute.NewAllowKeysFilter("a")}),
+			sdkmetric.NewView(sdkmetric.Instrument{Name: "*", Unit: "no-such-unit"}, sdkmetric.Stream{AttributeFilter: allowKeys("a")}),
 			sdkmetric.NewView(sdkmetric.Instrument{Name: "*", Scope: instrumentation.Scope{Name: "another-scope"}}, sdkmetric.Stream{Aggregation: sdkmetric.AggregationDrop{}}),
-			sdkmetric.NewView(sdkmetric.Instrument{Name: "*", Kind: sdkmetric.InstrumentKindObservableGauge}, sdkmetric.Stream{AttributeFilter: attribute.NewDenyKeysFilter("a")}))
+			sdkmetric.NewView(sdkmetric.Instrument{Name: "*", Kind: sdkmetric.InstrumentKindObservableGauge}, sdkmetric.Stream{AttributeFilter: denyKeys("a")}))
 		specs["hf"] = []streamSpec{{out: "hf", agg: "drop"}}
 		{
 			sp := def("ogi")
@@ -291,7 +291,7 @@ func viewConfig(cfg int) ([]sdkmetric.View, map[string][]streamSpec, string) {
 		}
 	case 8:
 		name = "valid views next to an incompatible sibling view"
-		views = append(views, sdkmetric.NewView(sdkmetric.Instrument{Name: "ci"}, sdkmetric.Stream{Name: "ci_valid", AttributeFilter: attribute.NewAllowKeysFilter("a")}),
+		views = append(views, sdkmetric.NewView(sdkmetric.Instrument{Name: "ci"}, sdkmetric.Stream{Name: "ci_valid", AttributeFilter: allowKeys("a")}),
 			sdkmetric.NewView(sdkmetric.Instrument{Name: "ci"}, sdkmetric.Stream{Name: "ci_bad", Aggregation: sdkmetric.AggregationLastValue{}}),
 			sdkmetric.NewView(sdkmetric.Instrument{Name: "hf"}, sdkmetric.Stream{Name: "hf_bad", Aggregation: sdkmetric.AggregationLastValue{}}),
 			sdkmetric.NewView(sdkmetric.Instrument{Name: "hf"}, sdkmetric.Stream{Name: "hf_valid"}))
@@ -374,6 +374,26 @@ func compare(got map[string]val, want map[string]*val) string {
 		diffs = append(diffs[:6], fmt.Sprintf("… %d more", len(diffs)-6))
 	}
 	return strings.Join(diffs, "; ")
+}
+
+// allowKeys / denyKeys build the filter from a scratch key slice that the caller goes on using (as code that
+// assembles several views from one buffer does): a filter keeps the keys it was built with.
+func allowKeys(keys ...attribute.Key) attribute.Filter {
+	scratch := append(make([]attribute.Key, 0, 8), keys...)
+	f := attribute.NewAllowKeysFilter(scratch...)
+	for i := range scratch {
+		scratch[i] = "scribbled"
+	}
+	return f
+}
+
+func denyKeys(keys ...attribute.Key) attribute.Filter {
+	scratch := append(make([]attribute.Key, 0, 8), keys...)
+	f := attribute.NewDenyKeysFilter(scratch...)
+	for i := range scratch {
+		scratch[i] = "scribbled"
+	}
+	return f
 }
 
 func runHistory(k *vf.Case) {
@@ -731,7 +751,14 @@ func runConcurrent(k *vf.Case) {
 	defer os.Unsetenv("OTEL_GO_X_CARDINALITY_LIMIT")
 	temp := vf.Pick(r, []metricdata.Temporality{metricdata.DeltaTemporality, metricdata.CumulativeTemporality})
 	rd := sdkmetric.NewManualReader(sdkmetric.WithTemporalitySelector(func(sdkmetric.InstrumentKind) metricdata.Temporality { return temp }))
-	mp := sdkmetric.NewMeterProvider(sdkmetric.WithReader(rd))
+	mopts := []sdkmetric.Option{sdkmetric.WithReader(rd)}
+	if r.Bool() {
+		// an attribute filter in front of the aggregators: whatever it keeps per measurement is that
+		// measurement's own (the race detector watches the filter path under concurrent Adds)
+		mopts = append(mopts, sdkmetric.WithView(sdkmetric.NewView(sdkmetric.Instrument{Name: "*"}, sdkmetric.Stream{AttributeFilter: allowKeys("a")})))
+		k.C.Count("concurrent_cases_with_an_attribute_filter", 1)
+	}
+	mp := sdkmetric.NewMeterProvider(mopts...)
 	// in half of the cases nobody creates the instruments beforehand: every goroutine asks for its own
 	// meter and instruments after the barrier, so first-time creations of one identity overlap
 	lateCreate := r.Bool()
